@@ -2,7 +2,7 @@
 # usage: tools/seed_intake.sh <ID>   -- confirm agent-produced seeds in /tmp/seed-<ID>/_seed and store them under /verif/seeded
 ID=$1; ROUND=$2; SRC=/tmp/seed-$ID/_seed; WT=/tmp/wt1
 export GOFLAGS= GOPROXY=off
-for n in 1 2 3; do
+for n in 1 2 3 4; do
   [ -f $SRC/patch$n.diff ] || continue
   git -C $WT checkout -q -- . ; git -C $WT clean -fdq
   demo=$SRC/demo${n}_test.go
